@@ -22,12 +22,14 @@ Rec == ndJsonDeserialize(IOEnv.TRACE)
 
 VARIABLES l,         \* index of the next event
           poisoned,  \* the current run can no longer be followed
-          seen       \* properties already reported for the current run
+          seen,      \* properties already reported for the current run
+          assume2    \* the run was GENERATED assuming a two-stage next() (Begin.two); if the implementation takes the other
+                     \* admissible branch at the choice point the rest of the run is meaningless and is skipped
 
-tvars == <<allvars, l, poisoned, seen>>
+tvars == <<allvars, l, poisoned, seen, assume2>>
 
 TraceInit ==
-    /\ l = 1 /\ poisoned = TRUE /\ seen = {}
+    /\ l = 1 /\ poisoned = TRUE /\ seen = {} /\ assume2 = TRUE
     /\ kind = "shared" /\ val = 0 /\ ver = 1 /\ owners = {} /\ weaks = {} /\ subs = {}
     /\ obs = [s \in SubIds |-> 0] /\ unseen = [s \in SubIds |-> FALSE]
     /\ armed = [s \in SubIds |-> FALSE]
@@ -49,7 +51,7 @@ DoBegin(e) ==
     /\ guards' = [g \in GuardIds |-> NoGuard]
     /\ ret' = RNil /\ hist' = <<>>
     /\ q' = <<>> /\ granted' = {} /\ futs' = [f \in FutIds |-> NoFut]
-    /\ poisoned' = FALSE /\ seen' = {}
+    /\ poisoned' = FALSE /\ seen' = {} /\ assume2' = (e.two = 1)
     /\ Bump(1)
 
 (* The Obs action named by a Call event, arguments bound from the event *)
@@ -156,10 +158,11 @@ DoCall(e) ==
     /\ LET fails == Failures(e) IN
          /\ \A f \in fails : (f[1] \notin seen) => Report(e, f)
          /\ seen' = seen \cup {f[1] : f \in fails}
-         /\ poisoned' = ~RetOk(e)
+         /\ poisoned' = (~RetOk(e) \/ (e.op = "PollNext" /\ AtChoicePoint(e.h, e.op) /\ (e.ret.t = "Pending") # assume2))
+    /\ UNCHANGED assume2
     /\ Exercise(e)
 
-Skip == UNCHANGED <<allvars, poisoned, seen>>
+Skip == UNCHANGED <<allvars, poisoned, seen, assume2>>
 
 TraceNext ==
     /\ l <= Len(Rec)
